@@ -1303,6 +1303,11 @@ class _CompiledImporter:
         self.filename = file_data.get(
             'filename', filename.rsplit('.', maxsplit=1)[0])
         self.cell_map = file_data['cell_map']
+        for address, value in self.cell_map.items():
+            if isinstance(value, float) and type(value) is not float:
+                # the yaml reader's float subclass is summed differently by
+                # python (no compensated summation): 0.1 + 0.2 + 0.3
+                self.cell_map[address] = float(value)
         self.compiler = None
 
     def get_range(self, address):
